@@ -626,10 +626,10 @@ COMPONENTS = [
               shards={'quick': 4, 'thorough': 4},
               describe='integer encoders x every width edge +-2 and -260..260'),
     Component('prims', check_prim, strategy=prim_cases,
-              budget={'quick': 32000, 'thorough': 960000},
+              budget={'quick': 32000, 'thorough': 480000},
               describe='each primitive encoder x any Python value'),
     Component('tables', check_table, strategy=table_cases,
-              budget={'quick': 16000, 'thorough': 480000},
+              budget={'quick': 16000, 'thorough': 240000},
               describe='any value at a leaf of a nested table / array'),
     Component('bit-slots', check_slot, cases=bit_sweep,
               shards={'quick': 8, 'thorough': 8},
@@ -639,13 +639,13 @@ COMPONENTS = [
               describe='every non-bit slot of every class x values of every other Python '
                        'type (bytes, text, floats, Decimals, containers ...)'),
     Component('slots', check_slot, strategy=slot_cases,
-              budget={'quick': 24000, 'thorough': 640000},
+              budget={'quick': 24000, 'thorough': 320000},
               describe='valid method frame with one slot replaced by any value'),
     Component('headers', check_header, strategy=header_cases,
-              budget={'quick': 12000, 'thorough': 320000},
+              budget={'quick': 12000, 'thorough': 160000},
               describe='content header with one property / body size / channel '
                        'replaced'),
     Component('misc', check_misc, strategy=misc_cases,
-              budget={'quick': 8000, 'thorough': 160000},
+              budget={'quick': 8000, 'thorough': 80000},
               describe='body value, channels, protocol version octets'),
 ]
